@@ -104,6 +104,131 @@ def loops_over(E, fa, S, getter_suffix):
     return out
 
 
+OPTION_APPLY = ("map_or", "map", "is_some_and", "map_or_else", "and_then", "is_none_or", "inspect")
+
+
+def closure_sites(E, fa, S, getter_suffix):
+    """Invocations of a local *matcher closure* (`|lexicon| { for m in lexicon.common_prefix_
+    iterator(suffix) { insert .. } .. }`) with a lexicon that comes from the given dictionary
+    getter: directly (`matcher(self.dict.system_lexicon())`) or through an Option combinator
+    (`self.dict.user_lexicon().map_or(false, &mut matcher)`).
+    -> [(block of the invocation, closure path, captures, destination local of the result)]"""
+    out = []
+    matchers = {}
+    for b, i, s0 in fa.stmts():
+        rv = s0.get("rv")
+        if rv and rv["k"] == "agg" and rv.get("agg") == "closure" and not s0["lhs"]["p"]:
+            cpath = rv["closure"]
+            cfa = E.fa(cpath)
+            for cb, ct in calls_named(cfa, "common_prefix_iterator"):
+                lex = E.ap_operand(cfa, ct["args"][0])
+                if lex is not None and lex.root == ("arg", 2):
+                    matchers[s0["lhs"]["l"]] = (cpath, [E.ap_operand(fa, o) for o in rv["ops"]])
+
+    def closure_local(op):
+        pl = op_place(op)
+        for _ in range(8):
+            if pl is None:
+                return None
+            if pl["l"] in matchers and all(e == "*" for e in pl["p"]):
+                return pl["l"]
+            d = fa.single_def(pl["l"])
+            if d is None or d[2] != "assign":
+                return None
+            rv = d[3]
+            pl = op_place(rv["op"]) if rv["k"] in ("use", "cast") else rv.get("place") if rv["k"] in ("ref", "rawptr") else None
+        return None
+    for b, t in fa.calls():
+        nm = (callee_of(t) or {}).get("name") or ""
+        cl = None
+        lex = None
+        if nm in ("call_mut", "call", "call_once") and len(t["args"]) == 2:
+            cl = closure_local(t["args"][0])
+            o = fa.origin(t["args"][1])
+            if cl is not None and o[0] == "rv" and o[1]["k"] == "agg" and o[1]["ops"]:
+                lex = E.ap_operand(fa, o[1]["ops"][0])
+        elif nm in OPTION_APPLY and len(t["args"]) >= 2:
+            for a in t["args"][1:]:
+                cl = cl if cl is not None else closure_local(a)
+            if cl is not None:
+                lex = E.ap_operand(fa, t["args"][0])
+        if cl is not None and lex is not None and getter_suffix in [str(x) for x in lex.proj]:
+            out.append((b, matchers[cl][0], matchers[cl][1], t["dest"]["l"]))
+    return out
+
+
+def judge_matcher_closure(ctx, E, crate, label, cpath, caps):
+    """The per-match obligations of CAND/PAIR, read inside a matcher closure."""
+    cfa = E.fa(cpath)
+    CS = Sym(E, cfa)
+    loc = fn_loc(crate, cpath)
+
+    def outer(op):
+        a = E.ap_operand(cfa, op)
+        return Effects.map_closure_ap(a, caps) if a is not None else None
+    heads = []
+    for nb, nt in cfa.calls():
+        if any(strip_generics(x).endswith("::next") for x in callee_paths(nt)):
+            for src in _feeds(E, cfa, nt["args"][0]):
+                if src["lex"] is not None and src["lex"].root == ("arg", 2) and not src["drop"]:
+                    heads.append((nb, src))
+    if len(heads) != 1:
+        ctx.ob("CAND", "add_lattice_edges|%s-every-match-inserted" % label, False, loc,
+               "the matcher closure does not loop over the prefix matches of the lexicon it is given")
+        return None
+    nb, src = heads[0]
+    some_t, none_t = loop_parts(cfa, nb)
+    body = cfa.reachable(some_t, avoid={nb})
+    ins = [(b, t) for b, t in calls_named(cfa, "insert_node") if b in body]
+    oki = len(ins) == 1 and nb not in cfa.reachable(some_t, avoid={ins[0][0]})
+    ctx.ob("CAND", "add_lattice_edges|%s-every-match-inserted" % label, oki, cfa.loc(nb),
+           "every %s-lexicon match becomes a lattice node" % label if oki else
+           "a %s-lexicon match can be skipped without inserting a node" % label)
+    # the closure's result is true exactly when the body ran: a bool local set in the body
+    flags = set()
+    for b in body:
+        for s0 in cfa.blocks[b]["stmts"]:
+            if "lhs" in s0 and not s0["lhs"]["p"] and s0["rv"]["k"] == "use" and \
+                    (op_const(s0["rv"]["op"]) or {}).get("int") == 1 and \
+                    cfa.fn.locals[s0["lhs"]["l"]]["ty"] == "bool":
+                flags.add((s0["lhs"]["l"], b))
+    ret_l = None
+    for b, i, s0 in cfa.stmts():
+        if "lhs" in s0 and s0["lhs"]["l"] == 0 and not s0["lhs"]["p"] and s0["rv"]["k"] == "use":
+            pl = op_place(s0["rv"]["op"])
+            ret_l = pl["l"] if pl is not None else None
+    okh = any(l == ret_l for l, b in flags) and \
+        nb not in cfa.reachable(some_t, avoid={b for l, b in flags if l == ret_l})
+    ctx.ob("CAND", "add_lattice_edges|%s-sets-has_matched" % label, okh, cfa.loc(nb),
+           "a %s-lexicon match makes the matcher report `matched`" % label if okh else
+           "a %s-lexicon match does not make the matcher closure return true: unknown words are "
+           "generated as if nothing had matched" % label)
+    if ins:
+        ib, it = ins[0]
+        ia = [CS.operand(x) for x in it["args"]]
+        m_bl = [base_local(cfa, it["args"][k]) for k in (3, 4, 5)]
+        end = ia[3]
+        o4, o5 = outer(it["args"][1]), outer(it["args"][2])
+        ok_pos = o4 == AP(("arg", 4)) and o5 == AP(("arg", 5))
+        ok_end = end[0] == "binop" and end[1] == "Add" and "end_char" in show(end) and \
+            any(outer_txt == AP(("arg", 5)) for outer_txt in
+                [Effects.map_closure_ap(x[1], caps) for x in (end[2], end[3]) if x[0] == "ap"])
+        ok_pair = all(x is not None for x in m_bl) and \
+            m_bl[1][1][-1:] == ["word_idx"] and m_bl[2][1][-1:] == ["word_param"] and \
+            same_node(cfa, m_bl[1][0], m_bl[2][0])
+        ctx.ob("PAIR", "add_lattice_edges|%s|idx-and-param-from-same-match" % label, ok_pair,
+               cfa.loc(ib), "word_idx and word_param of an inserted node come from the same "
+               "lexicon match" if ok_pair else
+               "insert_node receives word_idx=%s and word_param=%s from different matches"
+               % (show(ia[4]), show(ia[5])))
+        ctx.ob("CAND", "add_lattice_edges|%s|positions" % label, ok_pos and ok_end, cfa.loc(ib),
+               "node inserted with (start_node, start_word, start_word + match length)"
+               if ok_pos and ok_end else
+               "node inserted with positions (%s, %s, %s)" % (show(ia[1]), show(ia[2]), show(ia[3])))
+    return src["suffix"] if src["frame"] is not cfa else repr(Effects.map_closure_ap(
+        E.ap_operand(cfa, src["term"]["args"][1]), caps))
+
+
 def loop_parts(fa, nb):
     sw = fa.term(nb).get("t")
     st = fa.term(sw)
@@ -144,6 +269,44 @@ def cand(ctx):
     suffixes = set()
     for src, label, optional in (("user_lexicon", "user", True), ("system_lexicon", "system", False)):
         loops = loops_over(E, fa, S, src)
+        sites = closure_sites(E, fa, S, src) if not loops else []
+        if len(sites) == 1:
+            sb, cpath, caps, dest = sites[0]
+            ctx.ob("CAND", "add_lattice_edges|%s-lexicon-consulted" % label, True, fa.loc(sb),
+                   "the %s lexicon is handed to the matcher closure that searches it for prefixes of "
+                   "the remaining text" % label)
+            okp = all(must_pass(fa, r, {sb}) for r in rets)
+            ctx.ob("CAND", "add_lattice_edges|%s-loop-on-every-path" % label, okp, fa.loc(sb),
+                   "every path runs the %s-lexicon search%s" % (label, " (or the lexicon is absent)"
+                                                                if optional else "") if okp else
+                   "the %s-lexicon search can be bypassed (it is not on every path through "
+                   "add_lattice_edges - a short-circuit `||`, an early return)" % label)
+            sfx = judge_matcher_closure(ctx, E, crate, label, cpath, caps)
+            if sfx is not None:
+                suffixes.add(sfx)
+            # its result reaches the flag handed to gen_unk_words
+            seen_l, work, reach = set(), [gt["args"][3]], False
+            while work:
+                pl = op_place(work.pop())
+                if pl is None or pl["l"] in seen_l:
+                    continue
+                seen_l.add(pl["l"])
+                if pl["l"] == dest:
+                    reach = True
+                    break
+                for (db, di, dk, dp) in fa.defs().get(pl["l"], []):
+                    if dk == "call":
+                        work.extend(dp["args"])
+                    elif dk == "assign":
+                        for key in ("op", "a", "b"):
+                            if key in dp and isinstance(dp[key], dict):
+                                work.append(dp[key])
+            ctx.ob("CAND", "add_lattice_edges|%s-result-reaches-has_matched" % label, reach, fa.loc(gb),
+                   "the matcher's result for the %s lexicon is part of the flag passed to gen_unk_words"
+                   % label if reach else
+                   "the flag passed to gen_unk_words does not depend on whether the %s lexicon matched"
+                   % label)
+            continue
         okl = len(loops) == 1 and not loops[0][1]["drop"]
         ctx.ob("CAND", "add_lattice_edges|%s-lexicon-consulted" % label, okl, fn_loc(crate, P_EDGES),
                "the %s lexicon is searched for prefixes of the remaining text" % label if okl else
